@@ -646,10 +646,15 @@ func (c *Conn) Seek(offset int64, whence int) (int64, error) {
 
 		if whence == SeekCurrent {
 			c.mutex.Lock()
-			c.offset += offset
-			offset = c.offset
+			// FirstOffset and LastOffset are placeholders that only the
+			// broker can resolve, in which case the offsets have to be read.
+			if c.offset != FirstOffset && c.offset != LastOffset {
+				c.offset += offset
+				offset = c.offset
+				c.mutex.Unlock()
+				return offset, nil
+			}
 			c.mutex.Unlock()
-			return offset, nil
 		}
 	}
 
@@ -662,9 +667,10 @@ func (c *Conn) Seek(offset int64, whence int) (int64, error) {
 		}
 	}
 
+	var current int64
 	if whence == SeekCurrent {
 		c.mutex.Lock()
-		offset = c.offset + offset
+		current = c.offset
 		c.mutex.Unlock()
 	}
 
@@ -678,6 +684,16 @@ func (c *Conn) Seek(offset int64, whence int) (int64, error) {
 		offset = first + offset
 	case SeekEnd:
 		offset = last - offset
+	case SeekCurrent:
+		// The connection offset may still be one of the placeholders, which
+		// Offset reports as the start or the end of the partition.
+		switch current {
+		case FirstOffset:
+			current = first
+		case LastOffset:
+			current = last
+		}
+		offset = current + offset
 	}
 
 	if offset < first || offset > last {
